@@ -7,6 +7,7 @@ import Ahbicht.Model.AhbEval
 import Ahbicht.Model.Resolve
 import Ahbicht.Model.Extract
 import Ahbicht.Model.Val
+import Ahbicht.Model.Full
 import Ahbicht.Model.Time
 import Ahbicht.Model.Json
 import Ahbicht.Model.Heap
@@ -125,6 +126,35 @@ partial def groupsOf (js : List Json) : Except String Groups :=
   match js with
   | [] => pure .nil
   | j :: rest => do pure (.cons (← groupOf j) (← groupsOf rest))
+end
+
+def charsOf (j : Json) (k : String) : Except String (List Char) := do
+  pure (← j.getObjValAs? String k).toList
+
+def dataElementTOf (j : Json) : Except String DataElementT := do
+  let k ← j.getObjValAs? String "k"
+  let disc ← j.getObjValAs? String "disc"
+  if k == "free" then
+    pure (.free disc (← charsOf j "expr") (optStrOf j "input") (optStrOf j "vtype"))
+  else
+    let es ← (← j.getObjVal? "entries").getArr?
+    let entries ← es.toList.mapM fun e => do
+      pure ((← e.getObjValAs? String "q"), (← e.getObjValAs? String "m"), (← charsOf e "expr"))
+    pure (.pool disc entries (optStrOf j "input"))
+
+def segmentTOf (j : Json) : Except String SegmentT := do
+  let des ← (← j.getObjVal? "des").getArr?
+  pure ⟨← j.getObjValAs? String "disc", ← charsOf j "expr", ← des.toList.mapM dataElementTOf⟩
+
+mutual
+partial def groupTOf (j : Json) : Except String GroupT := do
+  let gs ← (← j.getObjVal? "groups").getArr?
+  let ss ← (← j.getObjVal? "segs").getArr?
+  pure (.mk (← j.getObjValAs? String "disc") (← charsOf j "expr") (← groupsTOf gs.toList) (← ss.toList.mapM segmentTOf))
+partial def groupsTOf (js : List Json) : Except String GroupsT :=
+  match js with
+  | [] => pure .nil
+  | j :: rest => do pure (.cons (← groupTOf j) (← groupsTOf rest))
 end
 
 def outJson (o : Out) : Json :=
@@ -340,6 +370,19 @@ def handle (j : Json) : Except String Json := do
     let lines ← (← j.getObjVal? "lines").getArr?
     let gs ← groupsOf lines.toList
     match validateAhb gs soll with
+    | .ok outs => pure (Json.mkObj [("results", Json.arr (outs.map outJson).toArray)])
+    | .error e => pure (Json.mkObj [("err", vErrName e)])
+  | "validateFull" =>
+    -- expression texts + content evaluation result in, validation results out (Model/Full.lean)
+    let soll := (j.getObjValAs? Bool "soll").toOption.getD true
+    let lines ← (← j.getObjVal? "lines").getArr?
+    let gs ← groupsTOf lines.toList
+    let P : List Char → Option (List Char) := fun k =>
+      match lookupObj j "packages" k with
+      | some (Json.str s) => some s.toList
+      | _ => none
+    let cer : Cer := ⟨rcEnvOf j, hintEnvOf j, fcEnvOf j, P⟩
+    match validateAhbFull cer gs soll with
     | .ok outs => pure (Json.mkObj [("results", Json.arr (outs.map outJson).toArray)])
     | .error e => pure (Json.mkObj [("err", vErrName e)])
   | "validateSegment" =>
